@@ -37,6 +37,8 @@ type Cell struct {
 	escaped bool // captured by a closure: havocked by calls
 }
 
+func (c *Cell) key() string { return fmt.Sprintf("%d", c.id) }
+
 type PtrVal struct {
 	Kind  int
 	Cell  *Cell
